@@ -197,7 +197,9 @@ class Sim(object):
     def remove(self, idxs, foreign=False):
         tm = self.tm2 if foreign else self.tm
         pids = [self.fpilot.uid if i is None else self.pilots[i].uid for i in idxs]
-        self._harness(lambda: tm.remove_pilots(pids))
+        # a single pilot is removed by its bare uid every other time (the API takes both forms)
+        arg = pids[0] if len(pids) == 1 and len(pids[0]) and int(pids[0][-1], 16) % 2 == 0 else pids
+        self._harness(lambda: tm.remove_pilots(arg))
         self.net.drain()
 
     def pilot_state(self, pilot, state, notify=True, obj=True):
